@@ -342,7 +342,7 @@ pub fn far_strategy(_tier: Tier) -> BoxedStrategy<FarCase> {
     (
         gen::mode4(),
         chunk_index(),
-        prop_oneof![1u32..=1024, 1u32..=65_536, prop::sample::select(vec![1024u32, 1025, 2048, 4096, 16 * 1024, 32 * 1024, 65_536])],
+        prop_oneof![1u32..=1024, 1u32..=65_536, crate::gen::select(vec![1024u32, 1025, 2048, 4096, 16 * 1024, 32 * 1024, 65_536])],
         gen::content(),
         prop::collection::vec(hist::size(20_000), 0..4),
     )
